@@ -198,6 +198,10 @@ def check(ix, rep):
         else:
             rep.ok('R-FOOTPRINT', f.module.rel, f.qual, slot, 'pointwise through the merge kernel / per-sample loop: the value at t depends on the operands at t', f.node.lineno)
     rep.floor('dense-time untimed operators with a footprint', nd, 20)
+    # a scan that starts from what another visit left in the visitor (scratch attribute initialised before the operand is visited) reads the
+    # operand's *whole* trace, also the part after t
+    from sa.rules import pure as _pure
+    _pure.pure_handlers(ix, rep, dm)
     # (3) bounded operators: the only unbounded influence interval is the last sample's, and it starts at T[last]+begin (past) / T[last]-end (future),
     #     i.e. outside [0, end of trace - reach); the merge step keeps every segment inside its own interval
     mm = ix.module('rtamt.semantics.stl.dense_time.offline.ast_visitor')
